@@ -46,8 +46,10 @@ type ChildCase struct {
 
 // HistoryCase: a history of load calls over pinned threads (C09).
 type HistoryCase struct {
-	Threads int        `json:"threads"`
-	Calls   []LoadCall `json:"calls"`
+	Threads  int                   `json:"threads"`
+	Calls    []LoadCall            `json:"calls"`
+	Policies map[string]PolicySpec `json:"policies"` // by kind
+	Probes   []uint64              `json:"probes"`   // probe syscall numbers issued on every thread after every call
 }
 
 // LoadCall is one step of a history.
@@ -56,17 +58,18 @@ type LoadCall struct {
 	Op     string `json:"op"`     // "load", "supported", "setnnp"
 	Flags  uint32 `json:"flags"`
 	NNP    bool   `json:"nnp"`
-	// Policy: "valid", "valid2", "invalid-name", "invalid-action", "oversize", "max4096", "empty-groups"
-	Policy string `json:"policy"`
+	Policy string `json:"policy"` // key of HistoryCase.Policies
 }
 
 // TSyncCase: thread-sync under schedules (C10).
 type TSyncCase struct {
-	Threads    []string `json:"threads"` // per thread state: spin, probe, sleep, pipe, futex, spawner
+	Threads    []string `json:"threads"` // per thread state: spin, probe, sleep, pipe, futex
+	Spawners   int      `json:"spawners"`
 	LoaderSpin int      `json:"loader_spin"`
 	GoMaxProcs int      `json:"gomaxprocs"`
 	ProbesEach int      `json:"probes_each"`
-	SpawnAfter int      `json:"spawn_after"` // threads created after the load from various threads
+	SpawnAfter int      `json:"spawn_after"` // threads created after the load
+	ProbeNR    uint64   `json:"probe_nr"`
 }
 
 // NNPCase: no_new_privs ordering and pinning (C11).
@@ -203,14 +206,18 @@ func RunChild(bin, mode string, c *ChildCase, strace bool, timeout time.Duration
 
 	var cmd *exec.Cmd
 	if strace {
-		cmd = exec.Command("strace", "-f", "-X", "raw", "-e", "trace=seccomp,prctl", "-e", "abbrev=none", "-e", "signal=none", "-s", "1000000", "-o", stracePath, bin, mode, casePath)
+		args := []string{"-f", "-X", "raw", "-e", "trace=seccomp,prctl", "-e", "abbrev=none", "-e", "signal=none", "-s", "1000000", "-o", stracePath}
+		if c.Unprivileged {
+			args = append(args, "-u", "nobody") // strace stays root, the tracee runs as uid/gid 65534 without capabilities
+		}
+		cmd = exec.Command("strace", append(args, bin, mode, casePath)...)
 	} else {
 		cmd = exec.Command(bin, mode, casePath)
 	}
 	var so, se bytes.Buffer
 	cmd.Stdout, cmd.Stderr = &so, &se
 	cmd.Env = append(os.Environ(), "GOTRACEBACK=single")
-	if c.Unprivileged {
+	if c.Unprivileged && !strace {
 		cmd.SysProcAttr = &syscall.SysProcAttr{Credential: &syscall.Credential{Uid: 65534, Gid: 65534, NoSetGroups: false}}
 		os.Chmod(casePath, 0o644)
 	}
